@@ -10,6 +10,9 @@
     putx / pujs                            as utx / ujs for Percentage
     pstr <v> <e> <gotext>                  Percentage.String
 
+    prim <name> <args…>                    one primitive of Model/GoStrings.lean / GoJson.lean
+                                           (the trusted base of Generated/CodecSrc.lean), see `prim`
+
   <gok> <gv> <ge> is what the Go code returned (accepted?, value, exponent).
   Response: `m <model result> pat <b> fits <b> dom <b> P <b>` where
   `P` is the specification oracle of Spec/C06 evaluated on the Go result,
@@ -21,6 +24,8 @@
   The model part is `undef` where that product would overflow in Go.
 -/
 import GoblVerif.Model.Codec
+import GoblVerif.Model.GoStrings
+import GoblVerif.Model.GoJson
 import GoblVerif.Spec.C06
 import Driver.Proto
 
@@ -57,8 +62,54 @@ def parse3 (gok gv ge : String) : Option (Bool × Amount) :=
   | some k, some v, some e => some (k == 1, ⟨v, e⟩)
   | _, _, _ => none
 
+/-- the primitives the translated codec rests on, evaluated for the harness to compare
+    with the real Go functions (`prims` family).  Texts hex-encoded, "-" = empty.
+      pint s            strconv.ParseInt(s, 10, 64)   → `<value> <ok|syntax|range>`
+      split s sep       strings.Split                 → the parts, hex, joined by `,`
+      hasp / tpre / tsuf / tright / cont  s x         HasPrefix / TrimPrefix / TrimSuffix / TrimRight / Contains
+      itoa v            Sprintf("%d", v)
+      pad0 w v          Sprintf("%0*d", w, v)
+      json data old     err := json.Unmarshal(data, &text) with text = old → `<text> <ok|err>` -/
+def prim (toks : List String) : String :=
+  let b (x : Bool) := if x then "1" else "0"
+  match toks with
+  | ["pint", s] =>
+    match unhexText s with
+    | some s =>
+      let r := GoStrings.parseInt s
+      let k := match r.2 with
+        | none => "ok"
+        | some e => if e == GoStrings.errRange then "range" else "syntax"
+      s!"{r.1} {k}"
+    | none => "bad-args"
+  | ["itoa", v] =>
+    match parseInt? v with
+    | some v => hexText (GoStr.itoa v)
+    | none => "bad-args"
+  | ["pad0", w, v] =>
+    match parseNat? w, parseInt? v with
+    | some w, some v => hexText (GoStrings.fmtPad0 w v)
+    | _, _ => "bad-args"
+  | [op, s, x] =>
+    match unhexText s, unhexText x with
+    | some s, some x =>
+      match op with
+      | "split" => ",".intercalate ((GoStrings.split s x).map hexText)
+      | "hasp" => b (GoStr.hasPrefix s x)
+      | "tpre" => hexText (GoStrings.trimPrefix s x)
+      | "tsuf" => hexText (GoStrings.trimSuffix s x)
+      | "tright" => hexText (GoStrings.trimRight s x)
+      | "cont" => b (GoStrings.contains s x)
+      | "json" =>
+        let r := GoJson.unmarshalString (textToBytes s) x
+        s!"{hexText r.1} {if r.2.isNone then "ok" else "err"}"
+      | _ => "bad-op"
+    | _, _ => "bad-args"
+  | _ => "bad-arity"
+
 def handle (toks : List String) : String :=
   match toks with
+  | "prim" :: rest => prim rest
   | ["afs", t, gok, gv, ge] =>
     match unhexText t, parse3 gok gv ge with
     | some s, some (acc, ga) =>
